@@ -283,6 +283,7 @@ Theorem colorder_nonsym_ok : forall m n colptr rowind perm_c,
     colorder false m n colptr rowind perm_c = Some out /\
     (forall i k, 0 <= i < n -> aget perm_c i = Some k ->
                  aget colbeg0 k = aget colptr i /\ aget colend0 k = aget colptr (i + 1)) /\
+    wf_pat m n colbeg0 colend0 rowind /\
     sp_coletree colbeg0 colend0 rowind m n = Some et0 /\ forest n et0 /\
     colorder_post n colptr perm_c et0 out.
 Proof.
